@@ -702,6 +702,7 @@ def gen_dir_group(rng, g, ctx, small=False):
                              rng.choice(['.h', '.c', 'a', '.']), 'not_now'])
     if name.startswith('~'):
         name = './' + name      # (see find_files above: a typed '~' is the home directory)
+    include = ['./' + i if i.startswith('~') else i for i in include]
     base = {'fn': fn, 'dirname': name, 'include': include,
             'patterns': [{'s': name + '/' + i, 'root': None, 'obj': False}
                          for i in include],
